@@ -143,9 +143,7 @@ class BstParser(Scanner):
             raise TokenRequired('BST command', self)
         yield command_name
         for i in range(arity):
-            brace = self.optional([self.LBRACE])
-            if not brace:
-                break
+            self.required([self.LBRACE])
             yield list(self.parse_group())
 
 
